@@ -8,6 +8,7 @@ A property module (``props/cNN_*.py``) provides::
     def strategy(tier) -> SearchStrategy    # generated cases (JSON-able)
     def run_case(case) -> CaseOut           # executes one case against pymap
     def enumerate_cases(tier) -> iterable   # optional exhaustive sub-space
+    FUZZ / fuzz_decode / fuzz_seeds         # optional coverage-guided part (harness/fuzz.py)
     BUDGET = {'quick': (examples_per_shard, shards), 'thorough': (...)}
 
 ``run_case`` never raises for an oracle failure; it returns them as
@@ -278,12 +279,18 @@ def _run_shard_inner(mod_name: str, tier: str, seed: int, shard: int,
                     if f.signature not in acc.violations:
                         acc.violations[f.signature] = {
                             'case': case, 'message': f.message}
+        elif part == 'fuzz':
+            from . import fuzz
+            fuzz_stats = fuzz.run_fuzz_shard(mod, mod_name, tier, seed, shard,
+                                             acc, known)
         else:
             _run_hypothesis(mod, tier, seed, shard, acc, known)
     finally:
         if hasattr(mod, 'shard_teardown'):
             mod.shard_teardown(shard)
     res = acc.export()
+    if part == 'fuzz':
+        res['fuzz'] = fuzz_stats
     res['shard'] = shard
     res['wall_s'] = time.time() - t0
     return res
@@ -435,6 +442,24 @@ def run_property(mod_name: str, tier: str, seed: int,
     if hasattr(mod, 'strategy') and mod.BUDGET[tier][0] > 0:
         jobs += [(mod_name, tier, seed, s, nshards, 'hyp')
                  for s in range(nshards)]
+    fuzz_note: Any = None
+    if hasattr(mod, 'FUZZ') and mod.FUZZ[tier][0] > 0:
+        from . import fuzz
+        if fuzz.available():
+            jobs += [(mod_name, tier, seed, s, mod.FUZZ[tier][1], 'fuzz')
+                     for s in range(mod.FUZZ[tier][1])]
+            fuzz_note = {'engine': 'atheris/libFuzzer, coverage-guided, '
+                         'target = fuzz_decode + run_case (same oracle)',
+                         'shards': mod.FUZZ[tier][1], 'execs': 0, 'rounds': 0,
+                         'crash_inputs': 0, 'cov': 0, 'ft': 0, 'corpus': 0}
+        else:
+            fuzz_note = {'engine': 'atheris not importable (setup.sh installs '
+                         'it into .deps): coverage-guided part skipped'}
+            print('warning: atheris not available, fuzz part skipped',
+                  file=sys.stderr)
+    only = os.environ.get('VERIF_ONLY')   # debugging aid: hyp | enum | fuzz
+    if only:
+        jobs = [j for j in jobs if j[5] == only]
     ctx = multiprocessing.get_context('fork')
     results: list[dict[str, Any]] = []
     if jobs:
@@ -446,6 +471,11 @@ def run_property(mod_name: str, tier: str, seed: int,
         if 'harness_error' in res:
             harness_errors.append(res['harness_error'])
             continue
+        if 'fuzz' in res and fuzz_note is not None:
+            for k in ('execs', 'rounds', 'crash_inputs'):
+                fuzz_note[k] += res['fuzz'][k]
+            for k in ('cov', 'ft', 'corpus'):
+                fuzz_note[k] = max(fuzz_note[k], res['fuzz'][k])
         total.evaluations += res['evaluations']
         total.nontrivial.update(res['nontrivial'])
         total.labels.update(res['labels'])
@@ -488,6 +518,8 @@ def run_property(mod_name: str, tier: str, seed: int,
     coverage.update({k: v for k, v in sorted(total.counters.items())})
     if exhaustive_done and hasattr(mod, 'EXHAUSTIVE_NOTE'):
         coverage['exhaustive_subspace'] = mod.EXHAUSTIVE_NOTE
+    if fuzz_note is not None:
+        coverage['fuzz'] = fuzz_note
     if hasattr(mod, 'coverage_extra'):
         coverage.update(mod.coverage_extra(tier))
     ev = {
